@@ -3,9 +3,8 @@ from harness import common, sysimg, sysprops
 from harness.props import codecleaf
 
 MODULE = 'C05'
-THEOREMS = ['C05_both16_roundtrip', 'C05_both32_roundtrip', 'C05_dr_roundtrip', 'C05_dr_record_parse_record',
-            'C05_ptr_roundtrip', 'C05_dr_date_roundtrip', 'C05_nonvacuous']
-RECIPES = ['exact_fill', 'ptable_boundary', 'ce_gap_exact', 'big_records', 'deep_tree', 'udf_fid_cross']
+THEOREMS = None
+RECIPES = ['exact_fill', 'ptable_boundary', 'ce_gap_exact', 'big_records', 'deep_tree', 'udf_fid_cross', 'long_symlinks']
 
 
 def oracle(b, report):
@@ -13,7 +12,7 @@ def oracle(b, report):
 
 
 def run(ctx):
-    common.proof_stage(ctx, MODULE, THEOREMS)
+    common.proof_stage(ctx, MODULE, common.theorems_of(MODULE))
     common.setup_impl_path()
     codecleaf.leaf_correspondence(ctx)
     quick = ctx.tier == 'quick'
